@@ -98,7 +98,8 @@ func (fv *FuncVerifier) takeEdge(st *State, from, to *ssa.BasicBlock) bool {
 			basePC := st.pc
 			for i, inv := range li.lc.Invariants {
 				g := fv.evalBool(env, inv.E)
-				fv.addOb(st, "inv-keep", fmt.Sprintf("inv-keep:L%d#%d@b%d", li.ord, i, from.Index), g, inv.Src, token.NoPos)
+				ob := fv.addOb(st, "inv-keep", fmt.Sprintf("inv-keep:L%d#%d@b%d", li.ord, i, from.Index), g, inv.Src, token.NoPos)
+				ob.PC = append(ob.PC, revealAxioms(fv.enc, inv.Reveal)...)
 				if fv.fc.StagedInv {
 					st.pc = append(st.pc[:len(st.pc):len(st.pc)], g)
 				}
@@ -130,7 +131,8 @@ func (fv *FuncVerifier) takeEdge(st *State, from, to *ssa.BasicBlock) bool {
 		basePC := st.pc
 		for i, inv := range li.lc.Invariants {
 			g := fv.evalBool(env, inv.E)
-			fv.addOb(st, "inv-init", fmt.Sprintf("inv-init:L%d#%d", li.ord, i), g, inv.Src, token.NoPos)
+			ob := fv.addOb(st, "inv-init", fmt.Sprintf("inv-init:L%d#%d", li.ord, i), g, inv.Src, token.NoPos)
+			ob.PC = append(ob.PC, revealAxioms(fv.enc, inv.Reveal)...)
 			if fv.fc.StagedInv {
 				// staged: an invariant may build on the ones listed before it (proved just above)
 				st.pc = append(st.pc[:len(st.pc):len(st.pc)], g)
@@ -210,6 +212,8 @@ func (fv *FuncVerifier) havocLoop(st *State, li *loopInfo) {
 			hint = c.Name()
 		}
 		nv := st.freshValue(hint, old.Typ)
+		// whatever the loop body stored there was allocated before this point of the iteration
+		st.assumeRefs(nv)
 		st.cells[c] = nv
 	}
 	for r := range st.rangePos {
@@ -1254,7 +1258,8 @@ func (fv *FuncVerifier) doReturn(st *State, r *ssa.Return) {
 	basePC := st.pc
 	for i, c := range fv.fc.Ensures {
 		g := fv.evalBool(env, c.E)
-		fv.addOb(st, "post", fmt.Sprintf("post#%d@ret%d", i, idx), g, c.Src, r.Pos())
+		pob := fv.addOb(st, "post", fmt.Sprintf("post#%d@ret%d", i, idx), g, c.Src, r.Pos())
+		pob.PC = append(pob.PC, revealAxioms(fv.enc, c.Reveal)...)
 		if fv.fc.Staged {
 			// proved just above at this very site: later postconditions may build on it
 			st.pc = append(st.pc[:len(st.pc):len(st.pc)], g)
